@@ -406,3 +406,50 @@ def heap_imports(ctx, prop):
         ctx.ob(rule, ok)
         if not ok:
             ctx.violation(rule, 'onl/sim/resources/store.py::imports', nm, '%s must be heapq.%s (is %r)' % (nm, nm, imp))
+
+
+def active_process_discipline(ctx, prop):
+    """env.active_process is what Interruption and Timer.restart use to recognise a self-call: it is written only by
+    Process._resume (and initialised by the environment), and every non-raising way out of _resume leaves it None"""
+    from ..paths import Options, loops_of
+    rule = prop + '.C.active_proc'
+    check_writers(ctx, prop + '.W.active_proc', '_active_proc', {
+        'Environment.__init__': 'no process is active initially', 'Process._resume': 'active while the generator runs'}, 3,
+        'the active-process mark is maintained by Process._resume only')
+    c = ctx.repo.find_class('Process')
+    f = c.methods.get('_resume')
+    if f is None:
+        raise AnalysisError('anchor vanished: Process._resume')
+    paths = ctx.paths(c, f, Options())
+    n = 0
+    construct = '%s::Process._resume' % f.module.relpath
+    for p in paths:
+        if p.exit == 'raise':
+            continue
+        n += 1
+        ws = [e.value for e in p.effects if e.kind == 'write' and e.target == 'self.env._active_proc']
+        ok = len(ws) >= 2 and ws[0] == 'self' and ws[-1] == 'None'
+        ctx.ob(rule, ok)
+        if not ok:
+            ctx.violation(rule, construct, 'active_proc writes %s' % ws,
+                          'Process._resume must mark itself active on entry and clear the mark on every normal exit (writes: %s)' % ws, where=f.where)
+    for reg in loops_of(paths):
+        for p in reg.paths:
+            if p.exit == 'return':
+                n += 1
+                ws = [e.value for e in p.effects if e.kind == 'write' and e.target == 'self.env._active_proc']
+                ok = bool(ws) and ws[-1] == 'None'
+                ctx.ob(rule, ok)
+                if not ok:
+                    ctx.violation(rule, construct, 'return from the resume loop without clearing active_proc',
+                                  'Process._resume returns from inside its loop on the path [%s] and leaves env.active_process pointing at this process' % p.cond_str()[:160],
+                                  where='%s:%d' % (f.module.relpath, p.exit_line))
+            # the mark must not be cleared while the generator may still run in this call
+            for e in p.effects:
+                if e.kind == 'write' and e.target == 'self.env._active_proc' and p.exit in ('fall', 'continue'):
+                    n += 1
+                    ctx.ob(rule, False)
+                    ctx.violation(rule, construct, 'active_proc cleared inside the resume loop',
+                                  'Process._resume clears env.active_process on a path that goes on to resume the generator again [%s]' % p.cond_str()[:160],
+                                  where='%s:%d' % (f.module.relpath, e.lineno))
+    ctx.floor(rule, n, 1, 'exits of Process._resume')
